@@ -8,7 +8,7 @@ use vcore::palette::{self, nearest, xterm240, Rgb};
 use vcore::rt::{self, Acc, Args, Report};
 use vcore::sgr::{ansi_index, ANSI_COLORS};
 
-const RULE: &str = "Inputs: RGB values from a 18^3 lattice, every candidate colour +-1 per channel, midpoints (+-1) between pairs of candidates, seeded random values (quick); ALL 2^24 RGB values (thorough). Targets: the 240 fixed colours of the 256-colour palette, and the 16-colour palette under VGA, Windows-10 and 6 seeded palettes (all-equal, duplicated entries, extremes only, random). All 256 indices and 16 palette colours for the remaining conversions. Oracle: brute-force search in i64 with the red-mean weighted distance, lowest index on ties; table by formula. Non-trivial = the input is not itself a candidate (distance > 0), distinct by (input, palette); ties are counted as a class.";
+const RULE: &str = "Inputs: RGB values from a 18^3 lattice, every candidate colour +-1 per channel, midpoints (+-1) between pairs of candidates, seeded random values (quick); ALL 2^24 RGB values (thorough). Targets: the 240 fixed colours of the 256-colour palette, and the 16-colour palette under VGA, Windows-10 and 14 more palettes (all-equal, duplicated entries, extremes only, 8 palettes clustered within 16 units of one cube corner each, 3 seeded random). All 256 indices and 16 palette colours for the remaining conversions. Oracle: brute-force search in i64 with the red-mean weighted distance, lowest index on ties; table by formula. Non-trivial = the input is not itself a candidate (distance > 0), distinct by (input, palette); ties are counted as a class.";
 
 fn to_rgb(c: Rgb) -> RgbColor {
     RgbColor(c.0, c.1, c.2)
@@ -42,6 +42,19 @@ fn palettes(seed: u64) -> Vec<(String, [Rgb; 16])> {
         *e = (if i & 1 != 0 { 255 } else { 0 }, if i & 2 != 0 { 255 } else { 0 }, if i & 4 != 0 { 255 } else { 0 });
     }
     v.push(("extremes".to_owned(), ext));
+    // clustered palettes: all 16 entries within 16 units of one corner of the cube, so that inputs
+    // near the opposite corner are far from every entry (entry 0, the corner itself, the farthest)
+    for corner in 0..8usize {
+        let mut p = [(0u8, 0u8, 0u8); 16];
+        for (i, e) in p.iter_mut().enumerate() {
+            let ch = |bit: usize, k: usize| -> u8 {
+                let off = ((i * k) % 16) as u8;
+                if corner & bit != 0 { 255 - off } else { off }
+            };
+            *e = (ch(1, 1), ch(2, 3), ch(4, 5));
+        }
+        v.push((format!("cluster-{corner}"), p));
+    }
     let rnd = sample_values(rt::derive_seed(seed, "palettes", 0), 3, &proptest::array::uniform16((any::<u8>(), any::<u8>(), any::<u8>())));
     for (i, p) in rnd.into_iter().enumerate() {
         v.push((format!("random-{i}"), p));
@@ -194,7 +207,7 @@ fn run(args: &Args, rep: &mut Report) {
         }
         Err(m) => acc.fail("tables-and-identities", json!({}), m),
     }
-    rep.add("tables-and-identities", true, "16 colours + 256 indices x 8 palettes: table, identities, index bijection, xterm_to_ansi", vec![acc]);
+    rep.add("tables-and-identities", true, &format!("16 colours + 256 indices x {} palettes: table, identities, index bijection, xterm_to_ansi", cx.palettes.len()), vec![acc]);
 
     let n = rt::workers();
     // the complete RGB cube: all targets in the thorough tier, the 240-colour target and the
